@@ -11,6 +11,7 @@ PROP = {
         "GunYu.Props.C20.absent_final",
         "GunYu.Props.C20.absent_final_bisync",
         "GunYu.Props.C20.snapshot_exp_abs",
+        "GunYu.Props.C20.runPlain_append",
     ],
     "expected_facts": {},
     "harness": [
